@@ -499,6 +499,9 @@ class Interp:
                     async for v in s:
                         ev(name, idx, 'got', v)
                         cnt += 1
+                        if cnt == 1 and st.get('body'):
+                            # what the consumer does with its first message (e.g. a second subscription of its own)
+                            await self.steps(name, idx + ('b',), st['body'])
                         if gap == 'tick':
                             # paced by absolute dates: work until the next whole tick of the clock
                             await (time >= math.floor(time.now) + 1)
@@ -572,10 +575,18 @@ class Interp:
         elif op in ('interval', 'delay'):
             fn = interval if op == 'interval' else delay
             durs = st['durs']
+            ticker = fn(num(st['p']))
+            if st.get('prepare') is not None:
+                # the ticker object is created first and iterated later: its grid starts when the loop is entered
+                try:
+                    await (time + num(st['prepare']))
+                except BaseException:
+                    await ticker.aclose()
+                    raise
             ev(name, idx, 'begin')
             k = 0
             try:
-                async for now in fn(num(st['p'])):
+                async for now in ticker:
                     ev(name, idx, 'tick', now)
                     if k >= len(durs):
                         break
